@@ -105,8 +105,8 @@ func init() {
 	addSpec(&Spec{ID: "C09", Title: "a failed write to the destination is always reported", Level: "fault_enumeration",
 		Shapes: portfolioMain,
 		Rule: "workloads = portfolio x 3 codecs x {single-page, multi-page, multi-row-group}; for each, a fault-free run counts the sink writes N and then EVERY k in 0..N-1 is re-run with the k-th sink write failing, " +
-			"in modes transient (only call k fails), sticky and partial (n=len/2 with the error); oracle = the API call in progress returns non-nil, no panic; distinct = (workload, k, mode), all non-trivial",
-		Require:    []string{"site_leading_magic", "site_page_header", "site_page_body_required", "site_page_body_optional", "site_footer", "site_footer_length", "site_trailing_magic"},
+			"in modes transient (only call k fails), sticky and partial (n=len/2 with the error), and again (transient, sticky) against a destination that also offers Flush/Sync/Close/WriteString/ReadFrom; oracle = the API call in progress returns non-nil, no panic; distinct = (workload, k, mode), all non-trivial",
+		Require:    []string{"site_leading_magic", "site_page_header", "site_page_body_required", "site_page_body_optional", "site_footer", "site_footer_length", "site_trailing_magic", "cases_with_rich_sink"},
 		Exhaustive: func(r *Run) bool { return true },
 		Extra: func(r *Run, cov map[string]interface{}) {
 			cov["exhaustive_note"] = "exhaustive over the fault position k for every workload listed (all sink writes of the fault-free run); workloads themselves are sampled"
@@ -115,7 +115,7 @@ func init() {
 	addSpec(&Spec{ID: "C10", Title: "a failed read or seek never turns into silently wrong rows", Level: "fault_enumeration",
 		Shapes: portfolioMain,
 		Rule: "files as C08; a fault-free run counts the source calls N (Read and Seek; thrift reads byte-wise so N is in the thousands) and EVERY k in 0..N-1 is re-run with the k-th call failing, modes (0,err) and (partial,err), " +
-			"once with a full-read source and once under chunk-7 fragmentation; oracle = error reported by the constructor or Error(), or else rows exactly the file's rows; no panic; distinct = (file, frag, k, mode); non-trivial = the failing call is a seek or reads a page header or page body (faults inside the footer can only end in a constructor error)",
+			"once with a full-read source, once under chunk-7 fragmentation and once through a source that also offers ReadByte/ReadAt/WriteTo; oracle = error reported by the constructor or Error(), or else rows exactly the file's rows; no panic; distinct = (file, frag, k, mode); non-trivial = the failing call is a seek or reads a page header or page body (faults inside the footer can only end in a constructor error)",
 		Require: []string{"site_seek", "site_footer_length", "site_footer", "site_page_header", "site_page_body_uncompressed", "site_page_body_snappy", "site_page_body_gzip",
 			"outcome_ctor_error", "outcome_iteration_error"},
 		Exhaustive: func(r *Run) bool { return true },
@@ -126,10 +126,10 @@ func init() {
 	addSpec(&Spec{ID: "C11", Title: "a truncated file is never accepted", Level: "fault_enumeration",
 		Shapes: portfolioMain,
 		Rule: "EVERY strict prefix (length 0..len-1) of: the C08 workload files (0.3-12 KiB, 3 codecs), one ~180 KiB uncompressed file (byte patterns that look like footer lengths beyond one I/O buffer), " +
-			"reference-written files whose footer tail reads as a plausible footer length (created_by chosen accordingly), and files whose string VALUES embed the footer of a shorter version of the same file followed by 8 arrangements of length words and magic, or the whole trailer of other files, or (self-footer) the file's OWN trailer as the last bytes of its first and second row group; " +
+			"reference-written files whose footer tail reads as a plausible footer length (created_by chosen accordingly), and files whose string VALUES embed the footer of a shorter version of the same file followed by 8 arrangements of length words and magic, or the whole trailer / body of other files of the same struct and of a different struct, or (self-footer) the file's OWN trailer as the last bytes of its first and second row group; " +
 			"plus the 1..8-byte tail cuts of ~800 tiny files of varying footer size; thorough adds 20-60 KiB files with targeted cuts; oracle = constructor or Error() reports an error, no panic — except for prefixes that the reference parser finds to be valid files by themselves (not judged); " +
 			"distinct = (file, cut); non-trivial = the prefix ends in the bytes PAR1 (the trailer check alone cannot refuse it) or the cut lies in the footer, the trailer, or exactly at a page or row-group boundary",
-		Require:    []string{"cut_footer", "cut_footer_length", "cut_trailer_magic", "cut_page_header", "cut_page_body", "cut_between_row_groups", "cut_page_boundary", "big_file_cuts", "resonant_footer_cuts", "embedded_footer_cuts", "trailer_files", "self_footer_row_groups_ending_in_own_trailer", "prefixes_ending_in_magic"},
+		Require:    []string{"cut_footer", "cut_footer_length", "cut_trailer_magic", "cut_page_header", "cut_page_body", "cut_between_row_groups", "cut_page_boundary", "big_file_cuts", "resonant_footer_cuts", "embedded_footer_cuts", "trailer_files", "self_footer_row_groups_ending_in_own_trailer", "prefixes_ending_in_magic", "embedded_files_of_another_struct"},
 		Exhaustive: func(r *Run) bool { return true },
 		Extra: func(r *Run, cov map[string]interface{}) {
 			cov["exhaustive_note"] = "exhaustive over prefix lengths for every small file; large files (thorough) use the targeted cut set"
